@@ -223,9 +223,17 @@ def _near_normaliser(ctx, prog, norm):
     w = (1.0 if ctx.tier == 'thorough' else 5.0) * deg
     xs = grid(-math.pi, math.pi, w)
     ps = grid(-2 * math.pi, 2 * math.pi, w)
+    # narrow cells next to +-pi (inside and outside the 0.01 degree singularity band) against references of either sign:
+    # a near-normaliser that treats "close to pi" like "equal to pi" negates such values, which is not a 2*pi shift
+    fine = []
+    for d0, d1 in ((0.5e-4, 1.5e-4), (2e-4, 4e-4), (1e-3, 2e-3), (1e-8, 1e-6)):
+        for sgn in (1, -1):
+            lo, hi = sorted((sgn * (math.pi - d1), sgn * (math.pi - d0)))
+            for pc in ((-0.2, -0.1), (0.1, 0.2), (0.0, 0.0), (-3.0, -2.9), (2.9, 3.0), (-6.0, -5.9), (5.9, 6.0)):
+                fine.append(((lo, hi), pc))
     holds = bad = und = 0
-    for X in xs:
-        for Pc in ps:
+    for X, Pc in [(X, Pc) for X in xs for Pc in ps] + fine:
+        if True:
             I = Interp(prog, {}, fuel=50000)
             try:
                 outs = I.run_with_cells(norm.path, [('refval', Iv(*X), ()), Iv(*Pc)], [0])
